@@ -1,15 +1,17 @@
 #!/bin/bash
-# round5.sh <PID> ... : confirm the sub-agent's output in /tmp/w5/out/<PID> as seed <PID>-5, then run the registered quick check against it
-mkdir -p /tmp/w5/results
+# round5.sh <PID> ... : confirm the sub-agent's output in /tmp/w$ROUND/out/<PID> as seed <PID>-$ROUND (default 5),
+# then run the registered quick check against it
+R=${ROUND:-5}
+mkdir -p /tmp/w$R/results
 for p in "$@"; do
-  id=$p-5
+  id=$p-$R
   if [ ! -d /verif/seeded/$id ]; then
-    /verif/tools/confirm_seed.sh $id /tmp/w5/out/$p > /tmp/w5/results/$id.confirm 2>&1
+    /verif/tools/confirm_seed.sh $id /tmp/w$R/out/$p > /tmp/w$R/results/$id.confirm 2>&1
   fi
   if [ -d /verif/seeded/$id ]; then
-    python3 /verif/tools/seedtest.py /verif/seeded/$id > /tmp/w5/results/$id.test 2>&1
-    echo "$id: $(tail -n +1 /tmp/w5/results/$id.test | head -3 | tr '\n' ' ' | cut -c1-300)"
+    python3 /verif/tools/seedtest.py /verif/seeded/$id > /tmp/w$R/results/$id.test 2>&1
+    echo "$id: $(head -3 /tmp/w$R/results/$id.test | tr '\n' ' ' | cut -c1-300)"
   else
-    echo "$id: NOT CONFIRMED $(tail -1 /tmp/w5/results/$id.confirm)"
+    echo "$id: NOT CONFIRMED $(tail -1 /tmp/w$R/results/$id.confirm)"
   fi
 done
